@@ -500,7 +500,7 @@ def par_model_cases(ctx, protocol):
         adj2, pred2, root2, order2 = X.graph_of(rest, edges)
         sched.extend((i0, p, "cover") for (i0, p) in X.edge_cover(rest, adj2, pred2, root2, order2))
         rng = random.Random(ctx.seed + 606)
-        sched.extend((i0, p, "walk") for (i0, p) in X.random_paths(rest, adj, rng, 200 if ctx.quick else 6000))
+        sched.extend((i0, p, "walk") for (i0, p) in X.random_paths(rest, adj, rng, 200 if ctx.quick else 3000))
     cases = []
     for n, (i, path, how) in enumerate(sched):
         c = states[i]["cfg"]
@@ -519,7 +519,7 @@ def par_random_cases(ctx, n0):
     """seeded random schedules beyond the dumped graphs (more files and workers, files without trees after burn-in)"""
     rng = random.Random(ctx.seed + 707)
     cases = []
-    for n in range(150 if ctx.quick else 5000):
+    for n in range(150 if ctx.quick else 3000):
         F = rng.randint(1, 3 if ctx.quick else 4)
         W = rng.randint(1, 4 if ctx.quick else 5)
         procs = ["main", "feeder"] + ["w%d" % k for k in range(1, W + 1)]
@@ -596,7 +596,7 @@ def run(ctx):
     if "par" not in parts:
         par_cases = par_cases[:1]
     # ---- 2. sequential part on real TreeArrays
-    nrand = (150 if ctx.quick else 6000) if "seq" in parts else 1
+    nrand = (150 if ctx.quick else 3000) if "seq" in parts else 1
     rnd = [random_seq_case(ctx.seed * 7919 + 17 * i + 1, not ctx.quick) for i in range(nrand)]
     driven = ctx.drive(seq_cases + rnd, run_case)
     ctx.judge("Trace_TreeArrayMerge", driven, batch=1500)
